@@ -75,6 +75,7 @@ type FuncContract struct {
 	Aliases    []string
 	Sites      []*SiteSpec
 	FreeVars   []VarDecl // (closures) captured variables visible in the contract, by name
+	Deterministic bool // (extern functions) results are functions of the argument values only
 	Dead       bool // target does not exist (reported as unresolved)
 	Stable     bool // (interface / extern methods) the single result is a function of the receiver identity only
 }
@@ -116,12 +117,13 @@ type ContractFile struct {
 	PkgInvs []*Clause // invariants over package-level variables: established by init, never written afterwards
 	Consts  []*Clause // closed obligations over package-level constants
 	Lemmas  []*Clause
+	Immutables []*Clause // Type.field: written only while the enclosing object is being constructed (module-wide scan)
 }
 
 var clauseKeywords = map[string]bool{
 	"property": true, "requires": true, "ensures": true, "modifies": true, "pure": true,
 	"safe": true, "loop": true, "assume": true, "trusted": true, "alloc_bound": true,
-	"holds": true, "spawned": true, "terminates": true, "alias": true, "callsite": true, "stable": true, "freevars": true,
+	"holds": true, "spawned": true, "terminates": true, "alias": true, "callsite": true, "stable": true, "freevars": true, "deterministic": true,
 }
 
 var labelRe = regexp.MustCompile(`\s:([A-Za-z_][A-Za-z0-9_]*)\s*$`)
@@ -174,7 +176,7 @@ func ParseContractFile(path string) (*ContractFile, error) {
 		if i := strings.IndexAny(b, " \t"); i >= 0 {
 			word, rest = b[:i], strings.TrimSpace(b[i+1:])
 		}
-		if word != "go" && (clauseKeywords[word] || word == "import" || word == "ghost" || word == "pred" || word == "const" || word == "lemma" || word == "pkginv" || word == "func" || word == "extern" || word == "iface") {
+		if word != "go" && (clauseKeywords[word] || word == "import" || word == "ghost" || word == "pred" || word == "const" || word == "lemma" || word == "pkginv" || word == "fact" || word == "immutable" || word == "func" || word == "extern" || word == "iface") {
 			// a "go" block continues until the next keyword line; "case"/"return"/"switch"/"}" lines are not keywords
 			lastIsGo = false
 		}
@@ -215,12 +217,19 @@ func ParseContractFile(path string) (*ContractFile, error) {
 			lastIsGo = true
 			cur = nil
 			continue
-		case "const", "lemma", "pkginv":
+		case "immutable":
+			c := &Clause{Kind: word, Expr: strings.TrimSpace(rest), Label: strings.TrimSpace(rest), Property: curProp, Line: ln}
+			cf.Immutables = append(cf.Immutables, c)
+			lastExpr = nil
+			continue
+		case "const", "lemma", "pkginv", "fact":
 			e, lab := splitLabel(rest)
 			c := &Clause{Kind: word, Expr: e, Label: lab, Property: curProp, Line: ln}
 			if word == "const" {
 				cf.Consts = append(cf.Consts, c)
-			} else if word == "pkginv" {
+			} else if word == "pkginv" || word == "fact" {
+				// a fact is a package invariant without free variables whose initial truth is established by
+				// evaluating the real code (go test) rather than by the solver: regular expressions, tables
 				cf.PkgInvs = append(cf.PkgInvs, c)
 			} else {
 				cf.Lemmas = append(cf.Lemmas, c)
@@ -349,6 +358,10 @@ func ParseContractFile(path string) (*ContractFile, error) {
 				k := strings.IndexAny(v, " \t")
 				cur.FreeVars = append(cur.FreeVars, VarDecl{v[:k], strings.TrimSpace(v[k+1:])})
 			}
+		case "deterministic":
+			cur.Deterministic = true
+			cur.HasMod = true
+			cur.Pure = true
 		case "stable":
 			cur.Stable = true
 			cur.HasMod = true
@@ -641,6 +654,12 @@ func (c *exprCtx) conv(s string) (string, error) {
 					return "", err
 				}
 				renamed := c.renameOld(inner)
+				// a ghost without arguments carries no parameter to mark: its twin reads the entry state
+				renamed2 := ghost0Re.ReplaceAllString(renamed, "${1}__old()")
+				if renamed2 == inner {
+					return "", fmt.Errorf("old(%s) mentions no parameter and no ghost: it would be read in the final state", inner)
+				}
+				renamed = renamed2
 				out.Reset()
 				out.WriteString(pre[:len(pre)-3])
 				out.WriteString("(" + renamed + ")")
@@ -722,6 +741,8 @@ func findTop(s, op string) int {
 	}
 	return -1
 }
+
+var ghost0Re = regexp.MustCompile(`\b(G_[A-Za-z0-9_]+)\(\s*\)`)
 
 // renameOld renames parameter identifiers to old_<p> (not after '.', not part of a longer identifier).
 func (c *exprCtx) renameOld(s string) string {
